@@ -7,7 +7,8 @@
    unoptimised builds); they are not theorems. *)
 From Coq Require Import Strings.String.
 From LV Require Import Base.Bytes Base.Str Base.Utf8 Base.Res Base.Base64
-  Model.Codec Model.Response Model.ServerInfo Model.Auth Model.Client Proofs.ClientProofs Proofs.AuthProofs Proofs.NoPanicProofs.
+  Model.Codec Model.Response Model.ServerInfo Model.Auth Model.Client Proofs.ClientProofs Proofs.AuthProofs Proofs.NoPanicProofs
+  Model.HeaderEnc Proofs.HeaderRtProofs.
 
 (* reading a reply: never a panic, for any buffered octets and any peer behaviour (the fuel of the loop
    never runs out: every iteration consumes at least one octet) *)
@@ -24,7 +25,14 @@ Proof. exact connect_no_panic. Qed.
 Theorem C19_send_never_panics : forall env msg (s : cst), shut s = false -> panic s = false -> fst (send env msg s) <> Panic.
 Proof. exact send_no_panic. Qed.
 
+(* encoding a header value (HeaderValue::new: the fold loop, rfc2047::encode with its character-boundary
+   truncation and its assert!) never panics and never runs out of steps, for every header name and every
+   well-formed UTF-8 value of any length: the fuel bound 2*|value|+2 of the model's loop is never reached *)
+Theorem C19_header_value_never_panics : forall name value : bytes, utf8_valid value = true ->
+  exists e, header_value_encode name value = Ok e.
+Proof. exact header_value_encode_total. Qed.
 Print Assumptions C19_reply_reader_never_panics.
 Print Assumptions C19_ehlo_info_never_panics.
 Print Assumptions C19_connect_never_panics.
 Print Assumptions C19_send_never_panics.
+Print Assumptions C19_header_value_never_panics.
